@@ -470,7 +470,7 @@ func TestVerifC06(t *testing.T) {
 		}
 	}
 
-	deadline := rep.Deadline(85*time.Second, 16*time.Minute)
+	deadline := rep.Deadline(85*time.Second, 18*time.Minute)
 	stats := &v6Stats{outcomes: map[string]int64{}, byWiring: map[string]int64{}, byClass: map[string]int64{}, sigCount: map[string]int64{}, sigFirst: map[string]v6Case{}}
 	var capped atomic.Bool
 
